@@ -385,6 +385,7 @@ theorem befpFromRaw_noPanic (raw : RawBefp) : (befpFromRaw raw).isPanic = false 
     · apply bind_noPanic
       · apply collectOut_noPanic
         intro s _
+        unfold befpShareFromRaw
         split
         · apply bind_noPanic (shareWithProofFromRaw_noPanic _ _)
           intro _ _; rfl
@@ -414,6 +415,7 @@ theorem befpFromRaw_u32 {raw : RawBefp} {p : Befp} (h : befpFromRaw raw = .ok p)
             subst h
             intro s hs
             obtain ⟨r, _, hr⟩ := collectOut_mem _ _ _ hcs (some s) hs
+            unfold befpShareFromRaw at hr
             cases hrp : r.proof with
             | none => simp [hrp] at hr
             | some rp =>
